@@ -848,7 +848,12 @@ func (c *compiler) evalCallExpression(node *ast.CallExpression) (interface{}, er
 					compiler: c,
 					block:    node.Block,
 				}
-				args = append(args, reflect.ValueOf(hargs))
+				harg := reflect.ValueOf(hargs)
+				if !harg.Type().AssignableTo(arg) {
+					// e.g. type MyContext plush.HelperContext
+					harg = harg.Convert(arg)
+				}
+				args = append(args, harg)
 				return
 			}
 
